@@ -120,19 +120,28 @@ def case_task(task):
                 part.count("incrementally_built_trees")
             if c.get("grafted") and f.K >= 2:
                 # the prune-regraft pattern: one subtree object grafted into two candidates, the other candidate is then
-                # edited (an extra data point added to a grafted clone); the first candidate is the tree under test
-                i = int(rng.integers(0, f.K))
-                sub = tree.get_subtree(names[i])
-                par = tree.get_parent(names[i])
+                # edited (an extra data point added to a grafted clone); the first candidate is the tree under test.  Half of
+                # the time the clones are named in pre-order first (clone 0 on top, as the run loop hands trees on) and the
+                # first candidate is left as add_subtree's own refresh of the path to the root leaves it (no full update)
+                if c["id"] % 2:
+                    tree.relabel_nodes()
+                cand_nodes = list(tree.nodes)
+                inner = [x for x in cand_nodes if tree.get_parent(x) != tree.root_node_name]
+                x = (inner or cand_nodes)[int(rng.integers(0, len(inner or cand_nodes)))]
+                sub = tree.get_subtree(x)
+                par = tree.get_parent(x)
                 tree.remove_subtree(sub)
                 cand_a = tree.copy()
                 cand_a.add_subtree(sub, parent=None if par == tree.root_node_name else par)
-                cand_a.update()
+                if c["id"] % 4 < 2:
+                    cand_a.update()
+                else:
+                    part.count("grafted_trees_without_full_update")
                 others = list(tree.nodes) + [None]
                 cand_b = tree.copy()
                 cand_b.add_subtree(sub, parent=others[int(rng.integers(0, len(others)))])
                 cand_b.update()
-                grafted = [x for x in cand_b.nodes if x not in tree.nodes]
+                grafted = [y for y in cand_b.nodes if y not in tree.nodes]
                 extra_dp = DataPoint(n, gen.make_values(rng, 1, D, G, "moderate")[0], name="c02_%d_extra" % c["id"])
                 cand_b.add_data_point_to_node(extra_dp, grafted[int(rng.integers(0, len(grafted)))])
                 sub.update()
